@@ -121,32 +121,63 @@ check('C07', 'proof',
       'word times alone and attached to dates, all 86,400 HH:MM:SS in thorough)', 'DESIGN.md §3 C07')
 
 check('C08', 'proof',
-      'Lean theorems for EVERY reference datetime (valid date 0001..9999, no other bound) and every N about a '
-      'function-by-function model of DateUtils.this/next/last, AgoLaterUtil.get_date_result, parse_implicit_date (special days, '
-      'next/this/last weekday) and _parse_one_word_period (week/month/year) on top of CPython\'s calendar (_ymd2ord/_ord2ymd '
-      'round trip and a full characterisation of isocalendar are proved): weekday = asked and Monday-of-week shifted by '
-      '0/+7/-7; today/tomorrow/yesterday = R.date+0/+1/-1; N days ago / in N days = R-/+N, N weeks = 7N days; this/next/last '
-      'week = [Monday(R)+7k, +7) with TIMEX = isocalendar of that Monday; year = [Jan 1 y+k, Jan 1 y+k+1); month = [1st of '
-      'shifted month, 1st of next) (month_period_fixed, the repaired code); now = R. Tie: CPython ord2ymd/weekday/isocalendar '
-      'vs model on every ordinal (thorough) / every day 1950..2090 + stride (quick), the datedelta shim, DateUtils on every '
-      'day 1950..2090, the two parser functions called directly, and recognize_datetime on the property\'s expression families '
-      'x boundary-first references with the property computed independently as oracle.',
-      TB + 'datedelta is a shim (documented roll-forward/clamp semantics). Not modelled (pipeline-monitored only): English '
-      'get_swift_*/regexes, extractor/merger plumbing, early/mid/late prefixes, weekend, month/year-to-date.',
-      'Lean 4 proof (omega over ordinals after a proved _ord2ymd round trip) + unit, function-level and pipeline correspondence',
+      'Lean theorems for EVERY reference datetime (valid date 0001..9999, no other bound), every N and every shift k about a '
+      'function-by-function model of DateUtils.this/next/last, AgoLaterUtil.get_date_result (days, weeks, months, years, hours, '
+      'minutes, seconds), BaseDateParser.parse_implicit_date (special days, next/this/last weekday), '
+      'BaseDatePeriodParser._parse_one_word_period (week, weekend, month, year, early/mid/late prefixes, year/month to date) and '
+      'the rest-of block of _parse_duration, on top of CPython\'s calendar (the _ymd2ord/_ord2ymd round trip and a full '
+      'characterisation of isocalendar() are proved): next/this/last <weekday> has the asked weekday and lies in the ISO week '
+      'shifted by +1/0/-1 (this_in_iso_week, next_is_following_week, last_is_preceding_week); today/tomorrow/yesterday = R.date '
+      '+0/+1/-1; N days ago / in N days = R -/+ N days, N weeks = 7N days (n_days_ago, in_n_days, n_weeks_is_7n_days); N '
+      'hours|minutes|seconds ago/later = the reference instant -/+ N units (hms_ago_later, hms_units); this/next/last week = '
+      '[Monday(R)+7k, +7) with TIMEX = ISO year and week of that Monday although the code reads them off the Thursday '
+      '(this_week_is_monday_to_monday, week_timex_matches_isocalendar); weekend = [Saturday, Monday) with TIMEX = ISO year and '
+      'week of the Saturday (weekend_timex_fixed); month = [1st of the shifted month, 1st of the next) with TIMEX YYYY-MM '
+      '(month_period_fixed); year = [Jan 1 y+k, Jan 1 y+k+1) (year_period); year/month to date = [Jan 1 | 1st of the month, R] for '
+      'the past and the future value (year_to_date, month_to_date); now = R. For early/mid/late and rest-of the theorems state '
+      'what the code computes (week_prefix_period, month_prefix_period, year_prefix_period, rest_of_week/month/year: inclusive '
+      'end, P<n>D with n = end-begin for weeks but end-begin+1 for months and years). The model mirrors the code after five '
+      'fixes found by this check (next-month-day-overflow, weekend-timex-reference-year, month-to-date-past-start, '
+      'zh-ago-number-truncated here; written-day-past-year-plus-one in C09); each pre-fix variant stays modelled in a labelled '
+      'REGRESSION section with its exact guard and a decide-witness (2020-01-31, 2020-12-31/2021-01-03, 2020-05-20), so a revert '
+      'is named with that input. Tie: CPython ord2ymd/weekday/isocalendar vs the model on every ordinal 1..3652059 (thorough) / '
+      'every day 1950..2090 + stride (quick); the datedelta shim; DateUtils on every day 1950..2090; get_date_result and the '
+      'three parser functions called directly on boundary-first references x three times of day; recognize_datetime on the '
+      'property\'s English expression families and on the expressions of contracts/C08.json for es-es, es-mx, fr-fr, pt-br, '
+      'it-it, de-de, nl-nl, zh-cn, en-us (the culture\'s own words: texts and expected values taken from the cross-platform Specs '
+      'and classified with the property itself at the Specs reference, committed), numbers varied, with the property computed '
+      'independently as oracle and the model\'s prediction compared as well.',
+      TB + 'datedelta is a shim (documented roll-forward / clamp semantics). Not modelled (pipeline-monitored only): every '
+      'culture\'s get_swift_* / regexes / extractor and merger plumbing, the Chinese date parser; for early/mid/late and rest-of '
+      'the oracle is the model, not a property. es-mx has no Specs of its own and is held to the Spanish contract.',
+      'Lean 4 proof (omega over ordinals after a proved _ord2ymd round trip and isocalendar characterisation; decide for '
+      'in-year tables and witnesses) + unit, function-level and nine-culture pipeline correspondence with an independent oracle',
       'DESIGN.md §3 C08')
 
 check('C09', 'proof',
-      'Lean theorems for every reference about the model of DateUtils.generate_dates and the bare-weekday branch of '
-      'parse_implicit_date: weekday -> future = past+7, past < R.date <= future, stated weekday, midnight, TIMEX XXXX-WXX-d; '
-      'month-day -> consecutive years with past < R.date <= future, proved under the exact guard "reference time of day = '
-      '00:00:00" (negative witness May 10 @ 2020-05-10 14:00 proved; full statement proved for the repaired variant); 29 '
-      'February -> neighbouring leap years with no leap year strictly between, century rules included (guards shown to hold '
-      'throughout 1950..2090). Tie: generate_dates on all 366 (m,d) x boundary days x 3 times of day, bare weekday on every '
-      'day 1950..2090, recognize_datetime on month-day layouts and weekday names with the property computed independently.',
-      TB + 'One recorded finding (monthday-reference-time-of-day: the cross-platform Specs encode that behaviour in 6 cases). '
-      'Order of the two values is monitored, not modelled. English only at pipeline level.',
-      'Lean 4 proof + unit and pipeline correspondence',
+      'Lean theorems for every reference about the model of DateUtils.generate_dates, the bare-weekday branch of '
+      'BaseDateParser.parse_implicit_date and the month + spelled-out-day tail of parse_number_with_month: bare weekday -> '
+      'future = past + 7, past < R.date <= future, stated weekday, midnight, TIMEX XXXX-WXX-d, also when the stated weekday is the '
+      'reference\'s own (weekday_candidates, weekday_candidates_adjacent); month-day -> the same (m, d) in two consecutive years '
+      'with past < R.date <= future, TIMEX XXXX-MM-DD, proved under the exact guard "reference time of day = 00:00:00" '
+      '(monthday_candidates_partial; negative witness May 10 @ 2020-05-10 14:00 -> [2020-05-10, 2021-05-10] proved; the full '
+      'statement proved for the variant that compares dates, monthday_candidates_fixed) - this is the recorded finding '
+      'monthday-reference-time-of-day, kept because six Specs cases encode it; month + spelled-out day ("february twenty '
+      'second", "mayo veintiuno") -> nearest past / next future occurrence (written_day_fixed; the pre-fix year+1 variant kept as '
+      'a labelled regression with guard and witness 2020-02-21); 29 February -> the neighbouring leap years with no leap year '
+      'strictly between, century rules included: unconditional from non-leap years, guarded from leap years (witnesses '
+      '2020-02-29 14:00 and 2096-03-01 proved; the guard is shown to hold throughout 1950..2090). Tie: generate_dates on all 366 '
+      '(m, d) x boundary references x three times of day (also explicit years, invalid days, the edges of 0001..9999), the bare '
+      'weekday branch on every day 1950..2090 x all spellings, parse_number_with_month called directly, and recognize_datetime on '
+      'English month-day layouts / weekday names and on the expressions of contracts/C09.json for es-es, es-mx, fr-fr, pt-br, '
+      'it-it, de-de, nl-nl, zh-cn, en-us (texts and expected values from the cross-platform Specs, classified with the property '
+      'itself, committed) x references around the stated day (day before, the day at 00:00:00 and with a time of day, day after) '
+      '+ seeded, with the property computed independently as oracle.',
+      TB + 'The order of the two values (past first) is monitored, not modelled (C11). Other cultures: pipeline only; an '
+      'expression known from parser-level Specs only is demanded when the pipeline extracts it on its own, otherwise it is retried '
+      'inside the Specs\' own sentence. Outside 1950..2090, 29 February asked in a leap year next to a non-leap century (1896, '
+      '1904, 2096, 2104) yields min_value for one candidate - proved (feb29_fails_next_to_century) and recorded as an observation.',
+      'Lean 4 proof + unit, function-level and nine-culture pipeline correspondence with an independent oracle',
       'DESIGN.md §3 C09')
 
 check('C10', 'proof',
